@@ -332,9 +332,9 @@ class G:
         if P("p_noapp", 0.0) and self.names:
             c["bind::jr:noAppErrorString"] = "no app for ${%s}" % self.pick(self.names)
         if P("p_custom_bind", 0.1):
-            c["bind::" + self.pick(["jr:foo", "custom", "odk:x", "orx:y"])] = self.text("B") if P("_", 0.5) else self.expr()
+            c["bind::" + self.pick(["jr:foo", "custom", "odk:x", "orx:y", "tag", "toParseString", "odk:length", "name", "id"])] = self.text("B") if P("_", 0.5) else self.expr()
         if P("p_custom_instance", 0.08):
-            c["instance::" + self.pick(["custom", "odk:tag", "jr:z"])] = self.text("I")
+            c["instance::" + self.pick(["custom", "odk:tag", "jr:z", "tag", "id"])] = self.text("I")
         if P("p_custom_body", 0.08) and base not in ("calculate", "hidden"):
             c["body::" + self.pick(["accept", "custom", "jr:q"])] = self.text("Y")
 
